@@ -222,7 +222,9 @@ public:
 	}
 	void lock()
 	{
+		ASL_VERIF_HOOK(20, this, 0);
 		pthread_mutex_lock(&_mutex);
+		ASL_VERIF_HOOK(21, this, 0);
 	}
 	bool trylock()
 	{
@@ -230,6 +232,7 @@ public:
 	}
 	void unlock()
 	{
+		ASL_VERIF_HOOK(22, this, 0);
 		pthread_mutex_unlock(&_mutex);
 	}
 	friend class Condition;
@@ -253,16 +256,20 @@ public:
 	}
 	void post()
 	{
+		ASL_VERIF_HOOK(23, this, 1);
 		sem_post(&_sem);
 	}
 	void post(int n)
 	{
+		ASL_VERIF_HOOK(23, this, n);
 		for(int i=0; i<n; i++)
 			sem_post(&_sem);
 	}
 	void wait()
 	{
+		ASL_VERIF_HOOK(24, this, 0);
 		sem_wait(&_sem);
+		ASL_VERIF_HOOK(25, this, 0);
 	}
 	bool wait(double timeout)
 	{
@@ -358,11 +365,14 @@ public:
 	}
 	void signal()
 	{
+		ASL_VERIF_HOOK(26, this, 0);
 		pthread_cond_broadcast(&_cond);
 	}
 	void wait()
 	{
+		ASL_VERIF_HOOK(27, this, 0);
 		pthread_cond_wait(&_cond, &_mutex->_mutex);
+		ASL_VERIF_HOOK(28, this, 0);
 	}
 	bool wait(double timeout)
 	{
